@@ -76,6 +76,41 @@ func runStream(sc streamCase) caseResult {
 	e.ctl.note("a1", "return", map[string]any{"api": "subscribe", "id": 1, "sid": sub.SubscriptionID, "err": "<nil>"})
 	e.ctl.register("main")
 	sid := sub.SubscriptionID
+	nextModel := 1
+	// another subscription (own monitored item) of the same session
+	other := func(handle uint32) (*opcua.Subscription, error) {
+		nextModel++
+		mid := nextModel
+		e.ctl.register("a1")
+		defer e.ctl.register("main")
+		e.ctl.note("a1", "call", map[string]any{"api": "subscribe", "id": mid})
+		ctx, cancel := context.WithTimeout(context.Background(), 20*time.Second)
+		defer cancel()
+		pp := p
+		sb, err := e.c.Subscribe(ctx, &pp, e.notif)
+		if err == nil {
+			_, err = sb.Monitor(ctx, ua.TimestampsToReturnBoth, opcua.NewMonitoredItemCreateRequestWithDefaults(ua.NewStringNodeID(1, "v2"), ua.AttributeIDValue, handle))
+		}
+		s := uint32(0)
+		if sb != nil {
+			s = sb.SubscriptionID
+			e.mu.Lock()
+			e.subs[mid] = sb
+			e.mu.Unlock()
+		}
+		e.ctl.note("a1", "return", map[string]any{"api": "subscribe", "id": mid, "sid": s, "err": fmt.Sprint(err)})
+		return sb, err
+	}
+	nsubs := 1
+	for _, ev := range sc.Events {
+		if ev == "publish-error" { // C36: the error fans out to at least two subscriptions
+			if _, err := other(31); err != nil {
+				return caseResult{Status: "inconclusive", Detail: "subscribe: " + err.Error()}
+			}
+			nsubs++
+			break
+		}
+	}
 
 	delivered := func() []int { e.mu.Lock(); defer e.mu.Unlock(); return append([]int(nil), e.values...) }
 	waitValue := func(v int, d time.Duration) bool {
@@ -109,6 +144,7 @@ func runStream(sc streamCase) caseResult {
 		return false
 	}
 	problem, dead := "", false
+	errFanout := -1
 	if !ss.waitArrivals(1, 20*time.Second) {
 		return caseResult{Status: "inconclusive", Detail: "no PublishRequest reached the scripted server", Trace: e.ctl.snapshot()}
 	}
@@ -146,6 +182,41 @@ func runStream(sc streamCase) caseResult {
 				break
 			}
 			e.ctl.note("env", "fault", map[string]any{"kind": "reset"})
+			dead = !waitResumed(before)
+		case "other-response":
+			// a second subscription is cancelled; the server answers the waiting request (which carries the pending
+			// acknowledgements) with that subscription's keep-alive after the client has forgotten it
+			sb, err := other(uint32(40 + i))
+			if err != nil {
+				problem = fmt.Sprintf("event %d %s: subscribe: %v", i, ev, err)
+				break
+			}
+			time.Sleep(20 * time.Millisecond)
+			before = ss.arrivals()
+			ss.setBeforeDelete(sb.SubscriptionID)
+			e.ctl.register("a1")
+			e.ctl.note("a1", "call", map[string]any{"api": "cancel", "id": nextModel})
+			cctx, ccancel := context.WithTimeout(context.Background(), 20*time.Second)
+			cerr := sb.Cancel(cctx)
+			ccancel()
+			e.ctl.note("a1", "return", map[string]any{"api": "cancel", "id": nextModel, "err": fmt.Sprint(cerr)})
+			e.ctl.register("main")
+			if !ss.waitArrivals(before+1, 15*time.Second) {
+				problem = fmt.Sprintf("event %d %s: no next PublishRequest", i, ev)
+			}
+		case "publish-error":
+			e0 := atomic.LoadInt64(&e.errs)
+			if err := ss.emitPublishError(sid); err != nil {
+				problem = fmt.Sprintf("event %d %s: %v", i, ev, err)
+				break
+			}
+			e.ctl.note("env", "fault", map[string]any{"kind": "reset"})
+			dl := time.Now().Add(10 * time.Second)
+			for atomic.LoadInt64(&e.errs) < e0+int64(nsubs) && time.Now().Before(dl) {
+				time.Sleep(2 * time.Millisecond)
+			}
+			errFanout = int(atomic.LoadInt64(&e.errs) - e0)
+			ss.linkCut()
 			dead = !waitResumed(before)
 		case "lose-kept", "lose-lost", "cut-kept", "cut-lost":
 			if strings.HasPrefix(ev, "lose") {
@@ -185,6 +256,9 @@ func runStream(sc streamCase) caseResult {
 	sort.Ints(queue)
 	obs := map[string]any{"events": sc.Events, "expected": sc.Delivered, "delivered": got, "acks": acks, "queue": queue,
 		"republish_requests": republished, "transfers": transfers, "mon_path": path, "dead": dead}
+	if errFanout >= 0 {
+		obs["error_notifications"], obs["subscriptions"] = errFanout, nsubs
+	}
 	res := caseResult{Status: "ok", Obs: obs, Class: strings.Join(sc.Events, ",")}
 	var viol []map[string]string
 	add := func(key, detail string) {
